@@ -534,7 +534,7 @@ func init() {
 		HarnessSpec{Name: "VerifH_http_recv_stream", Covers: []string{"clean-eof", "truncated"}})
 
 	ext("C18", "calls to a PROXIED backend (real RegisterConn + createConnHandler, in-memory backend stream under the engine / real grpc.Server natively, goroutine model with context bound 1): the four streaming shapes, succeeding and failing backend, interceptors + stats handler on and off",
-		HarnessSpec{Name: "VerifH_proxy_intercept", Concurrent: true, Covers: []string{"options-off", "unary-interceptor", "stream-interceptor", "failing"}})
+		HarnessSpec{Name: "VerifH_proxy_intercept", Concurrent: true, Covers: []string{"options-off", "unary-interceptor", "stream-interceptor", "failing", "interceptor-replaces-reply"}})
 	replaceOutside("C18", "proxied handlers over a real backend", "per-message payload stats events of proxied streams")
 
 	ext("C09", "WebSocket entry after a real upgrade (gobwas/ws interpreted): arbitrary client bytes - a symbolic 2-byte frame header (every opcode, FIN / RSV and mask bit, declared length 0..9) plus 0..5 (6) symbolic bytes, and frames announcing 125 bytes, a 16-bit and a 64-bit extended length with 2..3 bytes sent - then the connection ends",
